@@ -962,6 +962,32 @@ def _pseudo_probs(keys, salt, lo=0.3):
 
 
 DINUC_WORDS = ["AA", "CG", "TG", "CA", "GT", "AN", "RC", "-A", "C-", "--", "YG", "NN"]
+PI_POSN = [PI_NUC[1], PI_NUC[2], {"A": 0.3, "C": 0.3, "G": 0.15, "T": 0.25}]
+
+
+def _pi_for(model, salt):
+    """motif probabilities in the form the model's mprob option takes; the position-specific option ("posn") is
+    fed in its three forms: one vector per position, one vector for all positions, a word distribution"""
+    fam, _, pikind, _ = MODELS[model]
+    if pikind == "nuc":
+        return PI_NUC[(salt + 1) % 3]
+    if pikind == "posn":
+        k = S.word_length(fam)
+        form = salt % 3
+        if form == 0:
+            return [PI_POSN[(j + salt // 3) % 3] for j in range(k)]
+        if form == 1:
+            return PI_NUC[1 + (salt // 3) % 2]
+    return _pseudo_probs(S.states_of(fam), salt + 1)
+
+
+def _dinuc_models(thorough):
+    base = ["DINUC-tuple", "DINUC-conditional", "DINUC-monomer", "DINUC-nonrev", "DINUC-monomers", "DINUCSUB-monomers",
+            "DINUCSUB-monomer"]
+    if thorough:
+        base += ["DINUC-word", "DINUC-default"] + [f"DINUCSUB-{m}" for m in ("tuple", "word", "conditional", "default")] \
+            + [f"DINUCSUB-nonrev-{m}" for m in MPROB_OPTIONS]
+    return base
 
 
 def gen_dinucleotide(tier, seed):
@@ -973,22 +999,27 @@ def gen_dinucleotide(tier, seed):
         tree = S.parse_newick(tr)
         ntips = len(S.tip_names(tree))
         edges = S.edge_names(tree)
-        for model in ("DINUC-tuple", "DINUC-conditional", "DINUC-monomer", "DINUC-nonrev"):
+        for model in _dinuc_models(thorough):
             names = MODELS[model][3]
-            for salt in range(3 if thorough else 2):
-                for pv in ([2.5, 4.0, 1.7], [0.4, 9.0, 0.2], [1.0, 1.0, 1.0])[:3 if thorough else 2]:
+            states = S.states_of(MODELS[model][0])
+            words = [w for w in DINUC_WORDS if S.compatible(w, MODELS[model][0])]
+            old = model in ("DINUC-tuple", "DINUC-conditional", "DINUC-monomer", "DINUC-nonrev")
+            for salt in range(3 if (thorough or MODELS[model][2] == "posn") else 2):
+                for pv in ([2.5, 4.0, 1.7], [0.4, 9.0, 0.2], [1.0, 1.0, 1.0])[:3 if thorough else (2 if old else 1)]:
                     i += 1
-                    pi = PI_NUC[(salt + 1) % 3] if MODELS[model][2] == "nuc" else _pseudo_probs(states, salt + 1)
+                    pi = _pi_for(model, salt)
                     if ntips == 2:
-                        aln = {"words": states + DINUC_WORDS[5:]} if thorough else \
-                            {"words": states + DINUC_WORDS[5:], "stride": 3}
+                        aln = {"words": states + words[5:]} if thorough else \
+                            {"words": states + words[5:], "stride": 3}
                     else:
-                        aln = {"words": DINUC_WORDS, "stride": 1 if ntips == 3 else (5 if thorough else 37), "dup": 9}
+                        aln = {"words": words, "stride": 1 if ntips == 3 else (5 if thorough else 37), "dup": 9}
                     la = {n["name"]: n["length"] for n in S.nodes(tree)[1:]}
                     rules = _rules(la, dict(zip(names, pv)))
                     case = {"model": model, "tree": tr, "pi": pi, "rules": rules, "aln": aln}
                     if i % 3 == 0:
                         case["updates"] = [[[names[0], {"edge": edges[0]}, 6.0]]]
+                    if i % 5 == 0 and isinstance(pi, dict):
+                        case["pi_via"] = "model"
                     yield case
 
 
@@ -1010,8 +1041,9 @@ def gen_codon(tier, seed):
     trees = ["(a:0.3,b:0.1);", "(a:0.1,b:0.3,c:0.25);", "((a:0.1,b:0.0)n1:0.2,c:0.4,d:1.5);"]
     states = S.states_of("codon")
     models = ["MG94HKY", "GY94", "CNFGTR", "MG94GTR", "CNFHKY", "Y98", "GNC", "H04G", "H04GK", "H04GGK",
-              "MG94HKY:gc2", "GY94:gc2"] \
-        if thorough else ["MG94HKY", "CNFGTR"]
+              "MG94HKY:gc2", "GY94:gc2"] + [f"CODON-{m}" for m in MPROB_OPTIONS] \
+        + [f"CODON-nonrev-{m}" for m in MPROB_OPTIONS] \
+        if thorough else ["MG94HKY", "CNFGTR", "CODON-monomers"]
     i = 0
     for model in models:
         names = MODELS[model][3]
@@ -1024,7 +1056,8 @@ def gen_codon(tier, seed):
             for salt in range(3 if thorough else 1):
                 for om in ((0.25, 2.0) if thorough else (0.25,)):
                     i += 1
-                    pi = PI_NUC[1 + salt % 2] if MODELS[model][2] == "nuc" else _pseudo_probs(states, salt + 3)
+                    pi = _pi_for(model, salt) if model.startswith("CODON-") else (
+                        PI_NUC[1 + salt % 2] if MODELS[model][2] == "nuc" else _pseudo_probs(states, salt + 3))
                     params = {p: [2.9, 0.6, 1.4, 3.3, 0.8, 1.9, 0.45, 2.2, 1.2, 0.7, 5.0][(n + salt) % 11]
                               for n, p in enumerate(names)}
                     params["omega"] = om
@@ -1117,20 +1150,35 @@ def gen_sums(tier, seed):
                 yield case
     others = [("DINUC-tuple", "(a:0.3,b:0.1);"), ("DINUC-conditional", "(a:0.3,b:0.1,c:0.7);"),
               ("DINUC-monomer", "(a:0.3,b:0.0);"), ("DINUC-nonrev", "(a:0.3,b:0.1);"),
-              ("JTT92", "(a:0.3,b:0.1);"), ("DSO78", "(a:0.3,b:0.1,c:0.2);"), ("MG94HKY", "(a:0.3,b:0.1);")]
+              ("JTT92", "(a:0.3,b:0.1);"), ("DSO78", "(a:0.3,b:0.1,c:0.2);"), ("MG94HKY", "(a:0.3,b:0.1);"),
+              # the mprob_model option on alphabets that are not all k-mers (61 sense codons, a motifs= subset)
+              ("CODON-monomers", "(a:0.3,b:0.1);"), ("DINUCSUB-monomers", "(a:0.3,b:0.1,c:0.7);"),
+              ("DINUCSUB-monomer", "(a:0.3,b:0.1);"), ("DINUCSUB-conditional", "(a:0.3,b:0.0);"),
+              ("DINUCSUB-nonrev-monomers", "(a:0.3,b:0.1);"), ("DINUC-monomers", "(a:0.3,b:0.1,c:0.2);")]
     if thorough:
         others += [("GY94", "(a:0.3,b:0.1);"), ("CNFGTR", "(a:0.3,b:0.1);"), ("GNC", "(a:0.3,b:0.1);"),
                    ("WG01", "(a:0.3,b:0.1);"), ("AH96", "(a:0.3,b:0.1,c:0.2);")]
+        others += [(f"CODON-{m}", "(a:0.3,b:0.1);") for m in MPROB_OPTIONS]
+        others += [(f"CODON-nonrev-{m}", "(a:0.2,b:0.0);") for m in MPROB_OPTIONS]
+        others += [(f"DINUCSUB-{m}", "(a:0.3,b:0.1,c:0.7);") for m in MPROB_OPTIONS]
+        others += [(f"DINUCSUB-nonrev-{m}", "(a:0.3,b:0.1);") for m in MPROB_OPTIONS]
+        others += [(f"DINUC-{m}", "(a:0.3,b:0.1);") for m in ("word", "default")]
+    seen = set()
     for model, tr in others:
         fam, _, pikind, names = MODELS[model]
         states = S.states_of(fam)
         tree = S.parse_newick(tr)
         la = {n["name"]: n["length"] for n in S.nodes(tree)[1:]}
         params = {p: [2.9, 0.6, 1.4, 3.3, 0.8, 1.9, 0.45, 2.2, 1.2, 0.7, 5.0, 0.3][n % 12] for n, p in enumerate(names)}
-        case = {"model": model, "tree": tr, "rules": _rules(la, params), "aln": {"words": states}}
-        if fam != "protein":
-            case["pi"] = PI_NUC[1] if pikind == "nuc" else _pseudo_probs(states, 4)
-        yield case
+        for salt in (range(3) if pikind == "posn" else (3,)):     # "monomers": all three ways of giving the probs
+            if (model, tr, salt) in seen or (salt and not thorough and fam == "codon"):
+                continue
+            seen.add((model, tr, salt))
+            case = {"model": model, "tree": tr, "rules": _rules(la, params), "aln": {"words": states}}
+            if fam != "protein":
+                case["pi"] = _pi_for(model, salt) if pikind == "posn" else (
+                    PI_NUC[1] if pikind == "nuc" else _pseudo_probs(states, 4))
+            yield case
 
 
 def contract_sums(case):
